@@ -7,6 +7,7 @@ import (
 	"encoding/hex"
 	"fmt"
 	"runtime"
+	"runtime/debug"
 	"sort"
 	"sync"
 	"sync/atomic"
@@ -491,7 +492,7 @@ type c21Job struct {
 	run func(w *c21Worker)
 }
 
-func c21RunJobs(c *mc.Check, seen *c21Bitmap, jobs []c21Job) []*c21Worker {
+func c21RunJobs(c *mc.Check, seen *c21Bitmap, jobs []c21Job) (ws []*c21Worker, capped bool) {
 	nw := runtime.GOMAXPROCS(0)
 	workers := make([]*c21Worker, nw)
 	var next, skipped atomic.Int64
@@ -522,8 +523,9 @@ func c21RunJobs(c *mc.Check, seen *c21Bitmap, jobs []c21Job) []*c21Worker {
 	wg.Wait()
 	if n := skipped.Load(); n > 0 {
 		c.Capped(fmt.Sprintf("soft time budget: %d of %d jobs skipped", n, len(jobs)))
+		return workers, true
 	}
-	return workers
+	return workers, false
 }
 
 // ---------------------------------------------------------------------------------------------------------------------
@@ -714,6 +716,7 @@ type c21Upper struct {
 func TestVerifC21(t *testing.T) {
 	c := mc.Begin(t, "C21", "exploration")
 	defer c.End()
+	defer debug.SetGCPercent(debug.SetGCPercent(1000)) // tiny live heap, high allocation rate: collect less often
 	thorough := c.Thorough()
 	lg := mc.Pick[uint](c, 26, 29)
 	seen := &c21Bitmap{words: make([]atomic.Uint64, 1<<(lg-6)), mask: 1<<lg - 1}
@@ -951,7 +954,16 @@ func TestVerifC21(t *testing.T) {
 	c.Set("output_capacities_note", "every packet additionally runs with capacity = expected reply size - 1 and = expected reply size; large products use capacity 2000 plus those two")
 	c.Set("jobs", len(jobs))
 
-	workers := c21RunJobs(c, seen, jobs)
+	// strided order: should the soft budget cut the run short, every family has been touched
+	stride := 97
+	for len(jobs)%stride == 0 {
+		stride += 2
+	}
+	ordered := make([]c21Job, len(jobs))
+	for i := range jobs {
+		ordered[i] = jobs[i*stride%len(jobs)]
+	}
+	workers, capped := c21RunJobs(c, seen, ordered)
 
 	// ---- merge -------------------------------------------------------------------------------------------------------
 	var evals, replies, nontrivial, violating int64
@@ -995,6 +1007,7 @@ func TestVerifC21(t *testing.T) {
 	}
 
 	// ---- vacuity guards ------------------------------------------------------------------------------------------------
+	var unmet []string
 	for _, k := range []string{
 		"v4-tcp/reset", "v6-tcp/reset", "rst/for-ack", "rst/for-non-ack",
 		"v4-icmp-query/icmp", "v4-other/icmp", "v6-icmp-info/icmp", "v6-other/icmp",
@@ -1003,9 +1016,25 @@ func TestVerifC21(t *testing.T) {
 		"v4-tcp/nil-small-buffer", "v6-tcp/nil-small-buffer", "v4-other/nil-small-buffer", "v6-other/nil-small-buffer",
 		"reply-at-exact-capacity",
 	} {
-		c.Require(outcome[k] > 0 || len(viol) > 0, "outcome class %q never observed (outcomes: %v)", k, outcome)
+		if outcome[k] == 0 {
+			unmet = append(unmet, fmt.Sprintf("outcome class %q never observed", k))
+		}
 	}
-	c.Require(len(outcome) >= 20 || len(viol) > 0, "only %d distinct outcome classes", len(outcome))
+	if len(outcome) < 20 {
+		unmet = append(unmet, fmt.Sprintf("only %d distinct outcome classes", len(outcome)))
+	}
+	// A run that found violations is a verdict already, and a run cut short by the soft budget finishes normally with
+	// exhaustive=false: in both cases unmet guards are recorded, not fatal.
+	if len(unmet) > 0 {
+		switch {
+		case len(viol) > 0:
+			c.Set("vacuity_guards_unmet", map[string]any{"because": "violations found", "guards": unmet})
+		case capped:
+			c.Set("vacuity_guards_unmet", map[string]any{"because": "soft time budget hit", "guards": unmet})
+		default:
+			c.Require(false, "%v (outcomes: %v)", unmet, outcome)
+		}
+	}
 
 	c.Set("evaluations", evals)
 	c.Set("distinct_nontrivial", nontrivial)
